@@ -12,6 +12,8 @@
 //!   plugins/keyobject.rs         `apply_keyobject_inner`: order of the key object calls, `Duration::ZERO`
 //!                                asserts, the rotation-time rule
 //!   valueset/key_internal.rs     `merge`: the replace condition
+//!   repl/proto.rs                `ReplIncrementalEntryV1::new`: which attributes are put into a supply
+//!   entry.rs                     `merge_state`: the cid the merged attribute is stamped with
 //! Any shape not recognised is an `Err` (never a guess).
 use crate::util::*;
 use quote::ToTokens;
@@ -577,9 +579,37 @@ fn keyobject_ops(repo: &str, out: &str) -> Result<String, String> {
         return Err("ValueSetKeyInternal::merge: loop body shape not recognised".into());
     }
 
+    // ReplIncrementalEntryV1::new: the range test of an attribute's cid
+    let proto = parse_file(repo, "server/lib/src/repl/proto.rs")?;
+    let f = find_fn(&proto, "ReplIncrementalEntryV1::new")?;
+    let nb = ns(&f.block);
+    let mut within = None;
+    for (hi, hi_lean) in [("<=", "≤"), ("<", "<")] {
+        for (lo, lo_lean) in [(">", ">"), (">=", "≥")] {
+            let pat = format!("letwithin=schema.is_replicated(attr_name)&&ctx_range.get(&cid.s_uuid).map(|repl_range|{{cid.ts{hi}repl_range.ts_max&&cid.ts{lo}repl_range.ts_min}}).unwrap_or(false);");
+            if nb.contains(&pat) {
+                within = Some((hi, hi_lean, lo, lo_lean));
+            }
+        }
+    }
+    let (w_hi, w_hi_lean, w_lo, w_lo_lean) = within.ok_or("ReplIncrementalEntryV1::new: the `within` range test is not of the recognised shape")?;
+    if !nb.contains("ifwithin{") || !nb.contains("Some((attr_name.clone(),ReplAttrStateV1{cid,attr}))}else{None}") {
+        return Err("ReplIncrementalEntryV1::new: `if within { Some(..) } else { None }` not recognised".into());
+    }
+    // merge_state: the merged attribute takes the cid of the side chosen by take_left
+    let entry = parse_file(repo, "server/lib/src/entry.rs")?;
+    let f = find_fn(&entry, "merge_state")?;
+    let mb2 = ns(&f.block);
+    if !mb2.contains("lettake_left=cid_left>cid_right;")
+        || !mb2.contains("(Some(vs_left),Some(vs_right))iftake_left=>{changes.insert(attr_name.clone(),cid_left.clone());")
+        || !mb2.contains("(Some(vs_left),Some(vs_right))=>{changes.insert(attr_name.clone(),cid_right.clone());")
+    {
+        return Err("merge_state: the cid of a merged attribute is not `cid_left` if take_left else `cid_right`".into());
+    }
+
     // ---- emit
     let mut b = String::new();
-    b += "-- GENERATED by vtranslate (item keyobject-ops) from server/lib/src/{value.rs, server/keys/internal.rs, plugins/keyobject.rs, valueset/key_internal.rs}. Do not edit: rewritten on every check run.\n";
+    b += "-- GENERATED by vtranslate (item keyobject-ops) from server/lib/src/{value.rs, server/keys/internal.rs, plugins/keyobject.rs, valueset/key_internal.rs, repl/proto.rs, entry.rs}. Do not edit: rewritten on every check run.\n";
     b += "import KanidmModel.Generated.SessionOrd\nset_option linter.unusedVariables false\nnamespace Kanidm.Gen.KeyObjectOps\nopen Kanidm.Gen.SessionOrd\n\n";
     b += "/-- `enum KeyUsage` (value.rs), declaration order. -/\ninductive Usage where\n";
     for v in &usage_variants {
@@ -621,6 +651,7 @@ fn keyobject_ops(repo: &str, out: &str) -> Result<String, String> {
     b += "\n/-- `apply_keyobject_inner`: key object calls in source order. -/\ninductive PluginStep where\n  | importEs256\n  | importRs256\n  | revoke\n  | rotate\n  | assert (u : Usage)\n  deriving DecidableEq, Repr\n";
     b += &format!("\ndef pluginOrder : List PluginStep := [{}]\n", steps.join(", "));
     b += &format!("\n/-- `ValueSetKeyInternal::merge` (used by `merge_ava_set`): `v_other . status {} v_self . status`. -/\ndef entryMergeReplace (other self : KeyStatus) : Bool := decide (other.rank {merge_op} self.rank)\n", if merge_op == ">" { ">" } else { ">=" });
+    b += &format!("\n/-- `ReplIncrementalEntryV1::new` (repl/proto.rs): an attribute is supplied iff `cid . ts {w_hi} repl_range . ts_max && cid . ts {w_lo} repl_range . ts_min` for the range of the cid's origin server (`unwrap_or(false)` when there is none). -/\ndef attrWithin (ts tsMin tsMax : Nat) : Bool := (decide (ts {w_hi_lean} tsMax) && decide (ts {w_lo_lean} tsMin))\n");
     b += "\nend Kanidm.Gen.KeyObjectOps\n";
 
     let path = format!("{out}/KeyObjectOps.lean");
